@@ -194,6 +194,7 @@ def impl_conc(case, policy):
         post = [(op, do(op)) for op in case['post']]
         table = sorted([m, cn.cid, lev] for m, inner in dict.items(handler.subscriptions)
                        for cn, lev in dict.items(inner))
+    c20.forget_loggers(root.name)
     obs = {'pre': resolve(pre), 'threads': [resolve(t) for t in thr], 'post': resolve(post), 'table': table,
            'sched': {k: result[k] for k in ('deadlock', 'aborted', 'errors', 'alive')},
            'complete': all(len(t) == len(c) for t, c in zip(thr, case['threads']))}
